@@ -717,7 +717,8 @@ class StyleProperties:
 
     @staticmethod
     def validate(value):
-      return isinstance(value, PaddingType)
+      return isinstance(value, PaddingType) and \
+        all(isinstance(i, LengthType) for i in (value.before, value.end, value.after, value.start))
 
 
   class Position(StyleProperty):
